@@ -29,7 +29,7 @@ package ledger
 //   reload                                      step everything to idle, then Ledger.reloadLedger()  -> events
 //   end                                         stop recording, close; build the replay oracle       -> oracle digests
 //   open b=<img> t=<img> kind=rt|lag            reopen the pair with OpenLedger                       -> measurements
-// Events: put r h | bbegin lo hi | bmid r | bimg id | bend ok|err | notify c | fend e | conf r | tbegin a | tround n |
+// Events: ack r (the channel of Ledger.Wait(r) is closed) | lcack n (LatestCommitted() = (n, _)) | put r h | bbegin lo hi | bmid r | bimg id | bend ok|err | notify c | fend e | conf r | tbegin a | tround n |
 //         timg id | tend ok|err | tdone d | reload d lc | aux (a tracker transaction without UpdateAccountsRound)
 
 import (
@@ -127,6 +127,9 @@ type verifC09Run struct {
 	commitB []int // event index of the k-th block store commit (k>=1); commitB[0]=0
 	commitT []int
 	confAt  map[basics.Round]int
+	acked   map[basics.Round]bool          // Ledger.Wait(r) seen closed
+	waitCh  map[basics.Round]chan struct{} // the channel Ledger.Wait(r) returned right after the block was added
+	lcAck   basics.Round                   // highest first component of LatestCommitted() seen
 	waiters []chan struct{}
 
 	// history
@@ -446,9 +449,13 @@ func (h *verifC09Run) logEv(evs ...string) {
 			} else {
 				im.ver = h.verT
 			}
-		case "conf":
+		case "conf", "ack", "lcack":
+			// every kind of durability acknowledgement: WaitForCommit returned / the Ledger.Wait channel is closed /
+			// LatestCommitted's first component; the earliest one counts
 			r, _ := strconv.Atoi(f[1])
-			h.confAt[basics.Round(r)] = len(h.events)
+			if _, seen := h.confAt[basics.Round(r)]; !seen {
+				h.confAt[basics.Round(r)] = len(h.events)
+			}
 		}
 		h.events = append(h.events, e)
 	}
@@ -509,6 +516,40 @@ func (h *verifC09Run) collectConfs() {
 	for _, r := range early {
 		h.confLog[basics.Round(r)] = true
 		h.logEv(fmt.Sprintf("conf %d", r))
+	}
+}
+
+// collectAcks records what the ledger ACKNOWLEDGES as durable at this instant, through its two other interfaces:
+// `<-Ledger.Wait(r)` ("will not lose round r after a crash"; agreement, catchup and the state proof builder rely on it) —
+// both the channel obtained right after the block was added and a fresh call — and LatestCommitted()'s first component.
+func (h *verifC09Run) collectAcks() {
+	if h.l == nil || h.broken {
+		return
+	}
+	closed := func(ch chan struct{}) bool {
+		select {
+		case <-ch:
+			return true
+		default:
+			return false
+		}
+	}
+	for r := basics.Round(1); int(r) < len(h.blocks); r++ {
+		if h.acked[r] {
+			continue
+		}
+		if ch, ok := h.waitCh[r]; ok && closed(ch) {
+			h.acked[r] = true
+		} else if closed(h.l.Wait(r)) {
+			h.acked[r] = true
+		}
+		if h.acked[r] {
+			h.logEv(fmt.Sprintf("ack %d", r))
+		}
+	}
+	if lc, _ := h.l.LatestCommitted(); lc > h.lcAck {
+		h.lcAck = lc
+		h.logEv(fmt.Sprintf("lcack %d", lc))
 	}
 }
 
@@ -902,6 +943,7 @@ func (h *verifC09Run) addBlock(specs []string) (basics.Round, int, error) {
 	h.blocks = append(h.blocks, b)
 	h.u.learn(b)
 	r := b.Round()
+	h.waitCh[r] = l.Wait(r)
 	go func() {
 		l.WaitForCommit(r)
 		h.mu.Lock()
@@ -1148,6 +1190,7 @@ func (h *verifC09Run) opHist(f map[string]string) string {
 	h.blocks = []bookkeeping.Block{h.genesis.Block}
 	h.events, h.imgs, h.async, h.pendB, h.pendT = nil, nil, nil, nil, nil
 	h.confs, h.confLog, h.confAt = map[basics.Round]bool{}, map[basics.Round]bool{}, map[basics.Round]int{}
+	h.acked, h.waitCh, h.lcAck = map[basics.Round]bool{}, map[basics.Round]chan struct{}{}, 0
 	h.verB, h.verT, h.commitB, h.commitT = 0, 0, []int{0}, []int{0}
 	h.bqAt, h.trAt, h.waiters = "", "", nil
 	h.flushOK = true
@@ -1246,6 +1289,15 @@ func (h *verifC09Run) opEnd() string {
 			ol.WaitForCommit(basics.Round(r))
 		}
 		d := verifC09Dump(ol, h.u)
+		for try := 0; try < 3; try++ {
+			// (two equal consecutive dumps: a read that failed under load must not become the reference)
+			d2 := verifC09Dump(ol, h.u)
+			same := verifC09Digest(d2) == verifC09Digest(d)
+			d = d2
+			if same {
+				break
+			}
+		}
 		h.oracleD = append(h.oracleD, d)
 		h.oracle = append(h.oracle, verifC09Digest(d))
 	}
@@ -1363,6 +1415,12 @@ func (h *verifC09Run) opOpen(f map[string]string) (res string) {
 	}
 	d := verifC09Dump(l, h.u)
 	dig := verifC09Digest(d)
+	for try := 0; try < 3 && int(latest) < len(h.oracle) && dig != h.oracle[latest]; try++ {
+		// a read that failed under load ("database table is locked") shows as ERR in the dump: read again; a real difference stays
+		time.Sleep(100 * time.Millisecond)
+		d = verifC09Dump(l, h.u)
+		dig = verifC09Digest(d)
+	}
 	want, diff := "none", "-"
 	if int(latest) < len(h.oracle) {
 		want = h.oracle[latest]
@@ -1426,12 +1484,20 @@ func (h *verifC09Run) exec(op string) string {
 		if len(f) > 1 {
 			specs = f[1]
 		}
-		return h.opBlk(specs)
+		res := h.opBlk(specs)
+		at := len(h.events)
+		h.collectAcks()
+		if at < len(h.events) {
+			res += " ; " + h.takeNew(at)
+		}
+		return res
 	case "bq":
 		h.stepB()
+		h.collectAcks()
 		return h.takeNew(from)
 	case "tr":
 		h.stepT()
+		h.collectAcks()
 		return h.takeNew(from)
 	case "flushok":
 		h.flushOK = f[1] == "1"
@@ -1443,7 +1509,13 @@ func (h *verifC09Run) exec(op string) string {
 		h.failRound.Store(true)
 		return "ok"
 	case "reload":
-		return h.opReload()
+		res := h.opReload()
+		at := len(h.events)
+		h.collectAcks()
+		if at < len(h.events) {
+			res += " ; " + h.takeNew(at)
+		}
+		return res
 	case "end":
 		return h.opEnd()
 	case "open":
@@ -1534,7 +1606,7 @@ func (g *verifC09Gen) history(h *verifC09Run, out *vh.Out, id, nblocks, maxPairs
 	}
 	emit(fmt.Sprintf("hist id=%d lookback=%d cp=%d", id, lookback, cp))
 	added, reloaded := 0, false
-	burst := 0
+	burst, stall, stalled := 0, 0, false
 	for steps := 0; steps < 4000; steps++ {
 		var ch []string
 		// (while the committer stands between its transaction and postCommit, readers that reach the tracker DB wait for
@@ -1552,8 +1624,19 @@ func (g *verifC09Gen) history(h *verifC09Run, out *vh.Out, id, nblocks, maxPairs
 			for i := 0; i < 5; i++ {
 				ch = append(ch, "bq")
 			}
+			if h.bqAt == "pre" && stall > 0 {
+				// a persistently failing block DB: every flush attempt of this period is rolled back while blocks pile up
+				stall--
+				emit("failput")
+				emit("bq")
+				continue
+			}
 			if h.bqAt == "pre" && r.Chance(6) {
 				ch = append(ch, "failput")
+			}
+			if h.bqAt == "pre" && !stalled && r.Chance(10) {
+				stalled = true
+				stall = 2 + r.Intn(4)
 			}
 		}
 		if h.trAt != "" {
